@@ -523,7 +523,7 @@ expressible, see notes). -/
 theorem termFromStr_no_panic (s : Text) (site : String) : Term.fromStr s ≠ panic site :=
   Lemmas.C16.ne_panic_of_isPanic (Lemmas.C16.fromStrWith_np false s) site
 
-/-- the parser's recursion is bounded (fix c368604): every term it returns is nested at most `MAX_TERM_DEPTH` = 32
+/-- the parser's recursion is bounded (fix d2b4b5b): every term it returns is nested at most `MAX_TERM_DEPTH` = 32
 levels deep … -/
 theorem termFromStr_depth_bounded (s : Text) (t : Term) (h : Term.fromStr s = .ok t) : t.depth ≤ MAX_TERM_DEPTH :=
   Lemmas.C16.fromStr_depth_le false s t h
